@@ -149,3 +149,24 @@ def run_worker(d: str, mod: str, jobs: list[tuple[int, str]], tag: str, prelude:
         if crashes > 25:
             raise ToolFailure(f"C05 worker ({tag}): too many crashes/hangs of compiled code")
     return res
+
+
+def report(ctx, key: str, observed: dict, what: str, replay, cap: int = 4) -> None:
+    """ctx.report, but at most `cap` VIOLATION lines per `key` (known findings are deduplicated by ctx itself);
+    the number of suppressed reports is kept in the evidence."""
+    if ctx.match_known(observed) is None:
+        caps = ctx.__dict__.setdefault("_c05_caps", {})
+        caps[key] = caps.get(key, 0) + 1
+        if caps[key] > cap:
+            ctx.coverage["violations_not_printed (cap per class)"] = ctx.coverage.get("violations_not_printed (cap per class)", 0) + 1
+            return
+    ctx.report(observed, what, replay)
+
+
+def violation_nf(ctx, key: str, what: str, replay, cap: int = 2) -> None:
+    caps = ctx.__dict__.setdefault("_c05_caps", {})
+    caps[key] = caps.get(key, 0) + 1
+    if caps[key] > cap:
+        ctx.coverage["violations_not_printed (cap per class)"] = ctx.coverage.get("violations_not_printed (cap per class)", 0) + 1
+        return
+    ctx.violation(what, replay, found_input=False)
